@@ -4,6 +4,7 @@
 //! One run of a property = supervisor process + N worker processes (`bv worker ...`).
 //! The code in `props::*` only sees `Ctx`.
 
+pub mod proc;
 pub mod supervisor;
 
 use proptest::strategy::{Strategy, ValueTree};
